@@ -26,6 +26,7 @@ import (
 
 type outcome struct {
 	Violation  string         `json:"violation,omitempty"`
+	Undecided  string         `json:"undecided,omitempty"`
 	Clause     string         `json:"clause,omitempty"`
 	Sig        string         `json:"sig,omitempty"`
 	Timing     bool           `json:"timing,omitempty"`
@@ -581,6 +582,10 @@ func (d *driver) run(replay string) int {
 			continue
 		}
 		byClause[key] = true
+		if f.Outcome.Undecided != "" {
+			undecided = append(undecided, fmt.Sprintf("%s: harness could not judge a case: %s\n  case: %s\n  %s", f.shard, f.Outcome.Undecided, tail(string(f.Case), 1500), strings.Join(f.Outcome.History, "\n  ")))
+			continue
+		}
 		d.logf("candidate from %s: [%s] %s", f.shard, f.Outcome.Clause, firstLine(f.Outcome.Violation))
 		c := f.Case
 		o := f.Outcome
